@@ -1005,6 +1005,12 @@ pub fn sample(g: &G, rng: &mut Rng, nsym: u8, out: &mut Vec<u8>, fuel: &mut i64,
 
 /// Inputs for one grammar: derivations, mutated derivations and pure noise.
 pub fn gen_input(g: &G, rng: &mut Rng, nsym: u8, max_len: usize) -> Vec<u8> {
+    gen_input_fuel(g, rng, nsym, max_len, 200)
+}
+
+/// `fuel` bounds the derivation (a reference to the enclosing recursion costs 8): 200 gives a few
+/// levels of nesting, a few thousand give hundreds.
+pub fn gen_input_fuel(g: &G, rng: &mut Rng, nsym: u8, max_len: usize, fuel0: i64) -> Vec<u8> {
     let mut v = Vec::new();
     match rng.below(10) {
         0 => {
@@ -1014,7 +1020,7 @@ pub fn gen_input(g: &G, rng: &mut Rng, nsym: u8, max_len: usize) -> Vec<u8> {
             }
         }
         k => {
-            let mut fuel = 200;
+            let mut fuel = fuel0;
             sample(g, rng, nsym, &mut v, &mut fuel, None);
             if k >= 5 {
                 // mutate: the interesting parses are the nearly-right ones (far failure, then rewind)
